@@ -15,7 +15,8 @@ scratch copy (outside /repo and /verif, removed immediately):
                     local (``x = f(g(y), z)`` -> ``_t1 = g(y); x = f(_t1, z)``; evaluation order
                     is unchanged);
 * ``annotate-assign`` the first plain assignment of every local gets an annotation (``x: object = e``);
-* ``insert-pass``   a ``pass`` statement is inserted before every statement inside functions.
+* ``insert-pass``   a ``pass`` statement is inserted before every statement inside functions;
+* ``else-after-leave`` the statements following ``if c: ...return/raise/continue/break`` move into an ``else``.
 
 Each variant is checked with exactly the properties whose rules consulted that file (taken from
 the committed evidence files).  A check that reports a violation or an analysis error on a twin
@@ -266,6 +267,48 @@ class InsertPass(ast.NodeTransformer):
         return node
 
 
+class ElseAfterLeave(ast.NodeTransformer):
+    """``if c: ...return`` followed by the rest of the block  ->  ``if c: ...return  else: <rest>``
+    (the inverse of the "no else after return" clean-up; the paths are the same)."""
+
+    def __init__(self):
+        self.depth = 0
+
+    @staticmethod
+    def _leaves(block) -> bool:
+        return bool(block) and isinstance(block[-1], (ast.Return, ast.Raise, ast.Continue, ast.Break))
+
+    def _fold(self, block):
+        for i, st in enumerate(block):
+            if isinstance(st, ast.If) and not st.orelse and self._leaves(st.body) and i + 1 < len(block):
+                st.orelse = self._fold(block[i + 1:])
+                return block[: i + 1]
+        return block
+
+    def generic_visit(self, node):
+        super().generic_visit(node)
+        if self.depth:
+            for fld in ("body", "orelse", "finalbody"):
+                b = getattr(node, fld, None)
+                if isinstance(b, list) and b and isinstance(b[0], ast.stmt):
+                    setattr(node, fld, self._fold(b))
+        return node
+
+    def visit_FunctionDef(self, node):
+        self.depth += 1
+        self.generic_visit(node)
+        self.depth -= 1
+        return node
+
+    visit_AsyncFunctionDef = visit_FunctionDef
+
+    def visit_ClassDef(self, node):
+        saved, self.depth = self.depth, 0
+        self.generic_visit(node)
+        self.depth = saved
+        return node
+
+
 KINDS = {
     "reformat": None,
     "rename-locals": Renamer,
@@ -274,6 +317,7 @@ KINDS = {
     "extract-temp": ExtractTemp,
     "annotate-assign": AnnotateAssign,
     "insert-pass": InsertPass,
+    "else-after-leave": ElseAfterLeave,
 }
 
 
